@@ -1,0 +1,379 @@
+//! Verification hooks for the taiko difficulty-object graph (`--cfg rosu_pp_verif`).
+//!
+//! Read-only walk over what `DifficultyValues::create_difficulty_objects` builds
+//! (objects, index vectors, colour and rhythm data); no behaviour is added or
+//! changed.
+
+use std::fmt::Write;
+
+use rosu_map::section::{general::GameMode, hit_objects::hit_samples::HitSoundType};
+
+use crate::{
+    model::{
+        hit_object::{HitObject, HitObjectKind, Spinner},
+        mode::ConvertError,
+    },
+    taiko::{
+        convert,
+        object::{HitType, TaikoObject},
+    },
+    util::sync::RefCount,
+    Beatmap, Difficulty, GameMods,
+};
+
+use super::{
+    color::data::repeating_hit_patterns::RepeatingHitPatterns,
+    object::{MonoIndex, TaikoDifficultyObject, TaikoDifficultyObjects},
+    rhythm::data::{
+        same_patterns_grouped_hit_objects::SamePatternsGroupedHitObjects,
+        same_rhythm_hit_object_grouping::SameRhythmHitObjectGrouping,
+    },
+    gradual::TaikoGradualDifficulty,
+    DifficultyValues,
+};
+
+/// What `create_difficulty_objects` saw and built.
+pub struct PreDump {
+    pub clock_rate: f64,
+    pub take: u32,
+    /// `(0 = centre | 1 = rim | 2 = non-hit, start_time)` of every `TaikoObject`
+    pub objects: Vec<(u8, f64)>,
+    pub max_combo: u32,
+    pub n_diff_objects: usize,
+    pub dump: String,
+}
+
+/// Same preparation as `taiko::difficulty::difficulty` / `TaikoGradualDifficulty::new`.
+pub fn pre_dump(difficulty: &Difficulty, map: &Beatmap) -> Result<PreDump, ConvertError> {
+    let mut map = map.convert_ref(GameMode::Taiko, difficulty.get_mods())?;
+
+    if let Some(seed) = difficulty.get_mods().random_seed() {
+        convert::apply_random_to_beatmap(map.to_mut(), seed);
+    }
+
+    Ok(pre_dump_converted(
+        &map,
+        difficulty.get_passed_objects() as u32,
+        difficulty.get_clock_rate(),
+        difficulty.get_mods(),
+    ))
+}
+
+/// The object graph a [`TaikoGradualDifficulty`] built for itself (header counts are zero).
+pub fn pre_dump_gradual(difficulty: Difficulty, map: &Beatmap) -> Result<String, ConvertError> {
+    let gradual = TaikoGradualDifficulty::new(difficulty, map)?;
+
+    Ok(dump_objects(gradual.verif_diff_objects(), 0, 0))
+}
+
+/// Builds a taiko map from `(kind, start_time)` pairs (kind as in [`PreDump::objects`];
+/// non-hits are spinners) without going through the decoder.
+pub fn pre_dump_raw(objects: &[(u8, f64)], clock_rate: f64, take: u32) -> PreDump {
+    let mut map = Beatmap {
+        mode: GameMode::Taiko,
+        ..Beatmap::default()
+    };
+
+    for &(kind, start_time) in objects {
+        map.hit_objects.push(HitObject {
+            pos: Default::default(),
+            start_time,
+            kind: if kind == 2 {
+                HitObjectKind::Spinner(Spinner { duration: 100.0 })
+            } else {
+                HitObjectKind::Circle
+            },
+        });
+        map.hit_sounds.push(if kind == 1 {
+            HitSoundType::from(HitSoundType::CLAP)
+        } else {
+            HitSoundType::default()
+        });
+    }
+
+    pre_dump_converted(&map, take, clock_rate, Difficulty::new().get_mods())
+}
+
+fn pre_dump_converted(map: &Beatmap, take: u32, clock_rate: f64, mods: &GameMods) -> PreDump {
+    let objects = map
+        .hit_objects
+        .iter()
+        .zip(map.hit_sounds.iter())
+        .map(|(h, s)| {
+            let o = TaikoObject::new(h, *s);
+            let kind = match o.hit_type {
+                HitType::Center => 0,
+                HitType::Rim => 1,
+                HitType::NonHit => 2,
+            };
+
+            (kind, o.start_time)
+        })
+        .collect();
+
+    let mut max_combo = 0;
+    let mut n_diff_objects = 0;
+
+    let diff_objects = DifficultyValues::create_difficulty_objects(
+        map,
+        take,
+        clock_rate,
+        &mut max_combo,
+        &mut n_diff_objects,
+        mods,
+    );
+
+    let dump = dump_objects(&diff_objects, max_combo, n_diff_objects);
+
+    PreDump {
+        clock_rate,
+        take,
+        objects,
+        max_combo,
+        n_diff_objects,
+        dump,
+    }
+}
+
+fn bits(x: f64) -> String {
+    if x.is_nan() {
+        "nan".to_owned()
+    } else {
+        x.to_bits().to_string()
+    }
+}
+
+fn join<I: IntoIterator<Item = String>>(iter: I, sep: &str) -> String {
+    let v: Vec<String> = iter.into_iter().collect();
+
+    if v.is_empty() {
+        "-".to_owned()
+    } else {
+        v.join(sep)
+    }
+}
+
+fn rep_pos(rep: &RefCount<RepeatingHitPatterns>) -> usize {
+    let mut n = 0;
+    let mut curr = rep.get().prev.as_ref().and_then(|w| w.upgrade());
+
+    while let Some(c) = curr {
+        n += 1;
+        curr = c.get().prev.as_ref().and_then(|w| w.upgrade());
+    }
+
+    n
+}
+
+fn rgroup_pos(group: &RefCount<SameRhythmHitObjectGrouping>) -> usize {
+    let mut n = 0;
+    let mut curr = group.get().upgraded_previous();
+
+    while let Some(c) = curr {
+        n += 1;
+        curr = c.get().upgraded_previous();
+    }
+
+    n
+}
+
+fn pgroup_pos(group: &RefCount<SamePatternsGroupedHitObjects>) -> usize {
+    let mut n = 0;
+    let mut curr = group.get().previous.as_ref().and_then(|w| w.upgrade());
+
+    while let Some(c) = curr {
+        n += 1;
+        curr = c.get().previous.as_ref().and_then(|w| w.upgrade());
+    }
+
+    n
+}
+
+fn idx_list(v: &[RefCount<TaikoDifficultyObject>]) -> String {
+    join(v.iter().map(|o| o.get().idx.to_string()), ",")
+}
+
+fn dump_objects(objects: &TaikoDifficultyObjects, max_combo: u32, n_diff_objects: usize) -> String {
+    let mut out = String::new();
+    let len = objects.objects.len();
+
+    let _ = write!(out, "mc={max_combo},nd={n_diff_objects},dl={len}");
+    let _ = write!(
+        out,
+        "#S:c={}!r={}!t={}",
+        idx_list(&objects.center_hit_objects),
+        idx_list(&objects.rim_hit_objects),
+        idx_list(&objects.note_objects),
+    );
+
+    // per object
+    let per_object = objects.objects.iter().map(|o| {
+        let o = o.get();
+        let kind = match o.base_hit_type {
+            HitType::Center => "c",
+            HitType::Rim => "r",
+            HitType::NonHit => "n",
+        };
+        let mono = match o.mono_idx {
+            MonoIndex::Center(i) => format!("c{i}"),
+            MonoIndex::Rim(i) => format!("r{i}"),
+            MonoIndex::None => "-".to_owned(),
+        };
+
+        let cd = &o.color_data;
+        let rep = cd.repeating_hit_patterns.as_ref().map(rep_pos);
+        let alt = cd.alternating_mono_pattern.as_ref().and_then(|w| w.upgrade());
+        let mono_streak = cd.mono_streak.as_ref().and_then(|w| w.upgrade());
+
+        let color = match (rep, alt, mono_streak) {
+            (Some(r), Some(alt), Some(ms)) => {
+                let pos = ms
+                    .get()
+                    .hit_objects
+                    .iter()
+                    .position(|h| h.upgrade().is_some_and(|h| h.get().idx == o.idx));
+                let parent_alt = ms.get().parent.as_ref().and_then(|w| w.upgrade());
+                let parent_rep = alt.get().parent.as_ref().and_then(|w| w.upgrade());
+
+                match (pos, parent_alt, parent_rep) {
+                    (Some(pos), Some(pa), Some(pr)) => format!(
+                        "{r}.{}.{}.{pos}.{}.{}",
+                        alt.get().idx,
+                        ms.get().idx,
+                        rep_pos(&pr),
+                        pa.get().idx
+                    ),
+                    _ => "?".to_owned(),
+                }
+            }
+            (None, None, None) => "-".to_owned(),
+            _ => "?".to_owned(),
+        };
+
+        let rd = &o.rhythm_data;
+        let rhythm = match (
+            rd.same_rhythm_grouped_hit_objects.as_ref(),
+            rd.same_patterns_grouped_hit_objects.as_ref(),
+        ) {
+            (Some(g), Some(p)) => format!("{}.{}", rgroup_pos(g), pgroup_pos(p)),
+            (None, None) => "-".to_owned(),
+            _ => "?".to_owned(),
+        };
+
+        let window = if o.idx < len {
+            format!("{}.{}", o.idx.saturating_sub(128), o.idx)
+        } else {
+            "!".to_owned()
+        };
+
+        // what the evaluators look up from this object
+        let look = |r: Option<&RefCount<TaikoDifficultyObject>>| {
+            r.map_or_else(|| "-".to_owned(), |h| h.get().idx.to_string())
+        };
+        let lookups = [
+            look(objects.previous_note(&o, 0)),
+            look(objects.next_note(&o, 0)),
+            look(objects.previous_mono(&o, 0)),
+            look(objects.previous_mono(&o, 1)),
+            look(o.color_data.previous_color_change(objects)),
+            look(o.color_data.next_color_change(objects)),
+        ]
+        .join(".");
+
+        format!(
+            "{}:{kind}:{mono}:{}:{}:{}:{}:{color}:{rhythm}:{window}:{lookups}",
+            o.idx,
+            o.note_idx,
+            bits(o.delta_time),
+            bits(o.start_time),
+            bits(o.rhythm_data.ratio),
+        )
+    });
+    let _ = write!(out, "#O:{}", join(per_object, ";"));
+
+    // colour structure, in order of first appearance
+    let mut reps: Vec<String> = Vec::new();
+
+    for o in objects.objects.iter() {
+        let o = o.get();
+        let Some(rep) = o.color_data.repeating_hit_patterns.as_ref() else {
+            continue;
+        };
+
+        if rep_pos(rep) != reps.len() {
+            continue;
+        }
+
+        let rep = rep.get();
+        let alts = rep.alternating_mono_patterns.iter().map(|alt| {
+            join(
+                alt.get().mono_streaks.iter().map(|ms| {
+                    join(
+                        ms.get().hit_objects.iter().map(|h| {
+                            h.upgrade()
+                                .map_or_else(|| "x".to_owned(), |h| h.get().idx.to_string())
+                        }),
+                        ",",
+                    )
+                }),
+                "/",
+            )
+        });
+
+        reps.push(format!("{}[{}]", rep.repetition_interval, join(alts, "|")));
+    }
+
+    let _ = write!(out, "#M:{}", join(reps, ";"));
+
+    // rhythm groups and pattern groups, in order of first appearance
+    let mut rgroups: Vec<String> = Vec::new();
+    let mut pgroups: Vec<String> = Vec::new();
+
+    for o in objects.note_objects.iter() {
+        let o = o.get();
+
+        if let Some(g) = o.rhythm_data.same_rhythm_grouped_hit_objects.as_ref() {
+            if rgroup_pos(g) == rgroups.len() {
+                let g = g.get();
+                let members = join(
+                    g.hit_objects.iter().map(|h| {
+                        h.upgrade()
+                            .map_or_else(|| "x".to_owned(), |h| h.get().idx.to_string())
+                    }),
+                    ",",
+                );
+
+                rgroups.push(format!(
+                    "{members}@{}@{}@{}",
+                    g.hit_object_interval.map_or_else(|| "-".to_owned(), bits),
+                    bits(g.hit_object_interval_ratio),
+                    bits(g.interval),
+                ));
+            }
+        }
+
+        if let Some(p) = o.rhythm_data.same_patterns_grouped_hit_objects.as_ref() {
+            if pgroup_pos(p) == pgroups.len() {
+                let p = p.get();
+                let groups = join(
+                    p.groups.iter().map(|g| {
+                        g.upgrade()
+                            .map_or_else(|| "x".to_owned(), |g| rgroup_pos(&g).to_string())
+                    }),
+                    ",",
+                );
+
+                pgroups.push(format!(
+                    "{groups}@{}@{}",
+                    p.group_interval().map_or_else(|| "-".to_owned(), bits),
+                    bits(p.interval_ratio()),
+                ));
+            }
+        }
+    }
+
+    let _ = write!(out, "#R:{}", join(rgroups, ";"));
+    let _ = write!(out, "#P:{}", join(pgroups, ";"));
+
+    out
+}
